@@ -26,8 +26,6 @@ instance : AsStr GlobPattern := ⟨fun p => p.text⟩
 open SyModel.Filter in
 /-- `Path::to_str` (clean relative paths are valid UTF-8 in the model; names that are not are outside it) -/
 instance : ToStr RelPath := ⟨fun p => some (pathStr p)⟩
-/-- `OsStr::to_str` of a file name -/
-instance : ToStr SyModel.Filter.Name := ⟨fun n => some n⟩
 open SyModel.Filter in
 /-- `Path::file_name` followed by `OsStr::to_str` through `and_then`: the name itself -/
 def file_name (p : RelPath) : Option Name := fileName p
@@ -38,8 +36,6 @@ def ancestors (p : RelPath) : List RelPath := p :: ancestorsSkip1 p
 instance : StartsWith SyModel.Filter.RelPath SyModel.Filter.RelPath := ⟨fun p dir => dir.isPrefixOf p⟩
 /-- `Iterator::skip(n)` -/
 def skip (l : List α) (n : Nat) : List α := l.drop n
-/-- `Option::and_then` -/
-def and_then (o : Option α) (f : α → Option β) : Option β := o.bind f
 
 end Rs
 end SyModel.Generated
